@@ -47,7 +47,7 @@ Facade2 ==
     \cup {A("ChMove", n, 0, 0, s, 0, b, 0, 0) : n \in Node, s \in SeqsFrom(Task, 1, 2), b \in Task}
     \cup {A("ChMove", n, 0, 0, <<t>>, 0, 0, 0, 0) : n \in Node, t \in Task}
     \cup {A("ChMove", n, 0, 0, <<t>>, (t % N) + 1, t, 0, 0) : n \in Node, t \in Task}
-    \cup {A("ChSort", n, 0, 0, <<>>, 0, 0, k, r) : n \in Node, k \in 1..2, r \in 0..1}
+    \cup {A("ChSort", n, 0, 0, <<>>, 0, 0, k, r) : n \in Node, k \in 1..3, r \in 0..1}
     \cup {A("ChReorder", n, 0, 0, s, 0, 0, 0, 0) : n \in Node, s \in SeqsFrom(IdPool, 0, 2)}
     \cup {A(nm, x, t, 0, <<>>, 0, 0, 0, 0) :
              nm \in {"PredAppend", "PredRemove", "SuccAppend", "SuccRemove"}, x \in Task, t \in Task}
@@ -63,6 +63,8 @@ Ops3 ==
     \cup {A("SetPredsFrom", n, m, 0, <<>>, 0, 0, 1, 0) : n \in Task, m \in Node}
     \cup {A("SetPredsFrom", n, m, 0, <<>>, 0, 0, 2, 0) : n \in Task, m \in Task}
     \cup {A("SetSuccsFrom", n, m, 0, <<>>, 0, 0, k, 0) : n \in Task, m \in Task, k \in 2..3}
+    \cup {A("BulkParent", n, p, 0, <<>>, 0, 0, 0, 0) : n \in Node, p \in 0..N}
+    \cup {A("BulkPreds", n, 0, 0, s, 0, 0, 0, 0) : n \in Node, s \in SeqsFrom(Task, 0, 1)}
 
 Actions == Core1 \cup (IF LEVEL >= 2 THEN Facade2 ELSE {}) \cup (IF LEVEL >= 3 THEN Ops3 ELSE {})
 
